@@ -21,6 +21,9 @@ func Scenarios(thorough bool) map[string]*Scenario {
 	// two traffic steps with different replicas (a step jump must not route step k's traffic before its pods)
 	m["Q02b"] = &Scenario{ID: "Q02b", Kind: "CloneSet", Style: "partition", Replicas: 3, Traffic: "ingress", Grace: 1,
 		Steps: []StepSpec{{Replicas: "1", Traffic: "20%"}, {Replicas: "2", Traffic: "50%"}, {Replicas: "100%"}}}
+	// a stale canary Service left behind by an earlier, interrupted rollout
+	m["Q02s"] = &Scenario{ID: "Q02s", Kind: "CloneSet", Style: "partition", Replicas: 3, Traffic: "ingress", Grace: 1, StaleCanaryService: true,
+		Steps: []StepSpec{{Replicas: "1", Traffic: "20%"}, {Replicas: "100%"}}}
 	// mixed plan: an absolute step followed by percentage steps
 	m["Q01c"] = &Scenario{ID: "Q01c", Kind: "CloneSet", Style: "partition", Replicas: 4,
 		Steps: []StepSpec{{Replicas: "1"}, {Replicas: "50%"}, {Replicas: "100%"}}}
@@ -76,7 +79,7 @@ func Plans(thorough bool) map[string]PropertyPlan {
 			FreeQueues: true, StateCap: capQ, Monitors: func(w *World, sc *Scenario) []Monitor { return []Monitor{BatchStatusMonitor{}} }},
 		"C03": {Scenarios: []string{"Q02", "Q02b", "Q05", "Q08"}, Actions: []string{"jump(2)", "jump(3)", "jump(1)", "editPlanMore", "scaleUp"}, MaxUser: u,
 			FreeQueues: true, StateCap: capQ, Monitors: func(w *World, sc *Scenario) []Monitor { return []Monitor{TrafficOrderMonitor{}} }},
-		"C04": {Scenarios: []string{"Q02", "Q05", "Q08"}, Actions: []string{"rollback", "release3", "disable", "deleteRollout", "jump(2)"}, MaxUser: u, Disturbances: []string{"crash"}, MaxDisturb: 1,
+		"C04": {Scenarios: []string{"Q02", "Q02s", "Q05", "Q08"}, Actions: []string{"rollback", "release3", "disable", "deleteRollout", "jump(2)"}, MaxUser: u, Disturbances: []string{"crash"}, MaxDisturb: 1,
 			FreeQueues: true, StateCap: capQ, Monitors: func(w *World, sc *Scenario) []Monitor { return []Monitor{VoidMonitor{}} }},
 		"C10": {Scenarios: []string{"Q02", "Q05", "Q08"}, Actions: []string{"rollback", "release3"}, MaxUser: 1, Disturbances: []string{"crash", "midcrash"}, MaxDisturb: 1,
 			FreeQueues: true, StateCap: capQ, Monitors: func(w *World, sc *Scenario) []Monitor { return []Monitor{RollbackOrderMonitor{}} }},
